@@ -2360,7 +2360,10 @@ parse_identifier:
                     {
                       if (partp + (r = strlen (yytext)) +
                           (function_flag ? 3 : 0) - partial > MAXLINE)
-                        lexerror ("Pasted token is too long");
+                        {
+                          lexerror ("Pasted token is too long");
+                          break;
+                        }
                       if (function_flag)
                         {
                           strcpy (partp, "(: ");
